@@ -690,9 +690,25 @@ def runHandler (hk : Key) (it : QItem) (loc : Loc) : M Bool := do
     | _ => pure ()
     first := false
   let mut owned := false
+  let mut recvDone := false
+  let mut singleDone : List Nat := []
   for act in h.body do
     if !owned then
-      owned ← runAct hk it loc act
+      match act with
+      | .recv =>
+        -- the receiver's query item is moved out when it is first rendered
+        if !recvDone then
+          recvDone := true
+          owned ← runAct hk it loc act
+      | .single p =>
+        if singleDone.contains p then
+          match h.params[p]? with
+          | some pm => if pm.kind == .single || pm.kind == .trySingle then logT s!" single{p} gone"
+          | none => throw (.panic "script:bad-param")
+        else
+          singleDone := p :: singleDone
+          owned ← runAct hk it loc act
+      | _ => owned ← runAct hk it loc act
   pure owned
 
 def reverseTail (q : List QItem) (n : Nat) : List QItem := q.take n ++ (q.drop n).reverse
@@ -813,7 +829,10 @@ def addGlobalEvent (ty : EvTy) : M Key := do
 
 /-- `World::send` -/
 def sendGlobal (ty : EvTy) (pay : Payload) : M Unit := do
-  let k ← addGlobalEvent ty
+  -- the event value is owned by `send`; if registration unwinds, the value is dropped on the way out
+  let k ← tryCatch (addGlobalEvent ty) fun e => do
+    dropEvent { ty, idx := 0, pay }
+    throw e
   push { ty, idx := k.idx, pay }
   flush FUEL
 
@@ -864,7 +883,9 @@ def addTargetedEvent (ty : EvTy) : M Key := do
 def addEvent (ty : EvTy) : M Key := if ty.targeted then addTargetedEvent ty else addGlobalEvent ty
 
 def sendTargeted (ty : EvTy) (target : Key) (pay : Payload) : M Unit := do
-  let k ← addTargetedEvent ty
+  let k ← tryCatch (addTargetedEvent ty) fun e => do
+    dropEvent { ty, idx := 0, pay }
+    throw e
   push { ty, idx := k.idx, target, pay }
   flush FUEL
 
